@@ -262,4 +262,17 @@ def judgeMLn (n : Nat) (merging : Bool) (steps : List Step) (q : Bool) : Option 
     else none
   else convergence "ml" steps q
 
+/-- multi-leader on any topology.  Full mesh: `judgeMLn`.  Star / line (a leader's writes reach only its
+    peers; the others learn them through anti-entropy alone): with a resolver that returns one of its
+    inputs — a total order on coherent versions, so merging is "keep the greater" — the convergence
+    clause is judged when the run is quiescent and anti-entropy has run (`gossipComplete`); with a
+    merging resolver no convergence claim is made off the mesh (a version that dominates drops the
+    items of the one it replaces, so the merge is not associative across partial views). -/
+def judgeMLt (n : Nat) (merging mesh : Bool) (steps : List Step) (q : Bool) : Option String :=
+  if mesh then judgeMLn n merging steps q
+  else if merging then none
+  else if q && gossipComplete n steps && !(converged (finalStores steps)) then
+    some "ml/convergence/replicas-differ-after-anti-entropy"
+  else none
+
 end HappyModel.C17.Spec
